@@ -122,8 +122,33 @@ class Ctx:
         self._eq_cache[b] = facts
         return facts
 
+    def unconst(self, t, depth=0):
+        """replace const locals that have a single definition by their defining term"""
+        if depth > 5 or not isinstance(t, tuple):
+            return t
+        if t[0] == 'var':
+            d = self.fn.unit.decl(t[1])
+            if d['dk'] == 'Var' and d.get('constq') and not d.get('isref') and \
+                    d.get('ctype', '').replace('const ', '') in ('unsigned int', 'bool', 'unsigned long', 'int',
+                                                                 'std::pair<unsigned int, unsigned int>'):
+                defs = var_defs(self.fn, t[1])
+                if len(defs) == 1 and defs[0][1] >= 0:
+                    return self.unconst(strip_cast(self.tt.t(defs[0][1])), depth + 1)
+            return t
+        out = []
+        for x in t:
+            if isinstance(x, tuple):
+                if x and isinstance(x[0], str):
+                    out.append(self.unconst(x, depth + 1))
+                else:
+                    out.append(tuple(self.unconst(y, depth + 1) if isinstance(y, tuple) else y for y in x))
+            else:
+                out.append(x)
+        return tuple(out)
+
     def norm(self, t, nid):
         """substitute equal terms: prefer parameters / plain variables over derefs"""
+        t = self.unconst(t)
         facts = self.eq_facts(nid)
         if not facts:
             return t
@@ -142,6 +167,8 @@ class Ctx:
         f = self.fn
         if nid is not None:
             t = self.norm(t, nid)
+        else:
+            t = self.unconst(t)
         if t[0] == 'pair':
             return Key(t[1], t[2], False)
         if t[0] in ('call', 'mcall') and t[1].endswith('::orderedEdge'):
@@ -214,7 +241,7 @@ class Ctx:
         a = self.fn.branch_atom(dep[0])
         if a is None:
             return []
-        return [self.resolve(x) for x in true_atoms(self.tt.t(a), dep[1] == 0)]
+        return true_atoms(self.resolve(self.tt.t(a)), dep[1] == 0)
 
     def resolve(self, t, depth=0):
         """replace locals that have exactly one definition by their defining term"""
@@ -1432,7 +1459,7 @@ class PairEngine:
             a = f.branch_atom(cur)
             if a is None:
                 return None
-            v = eval_order(ctx.tt.t(a), env)
+            v = eval_order(ctx.resolve(ctx.tt.t(a)), env)
             if v is None:
                 return None
             cur = b.succs[0] if v else b.succs[1]
